@@ -203,6 +203,7 @@ func (m *Module) start(reports chan *report) {
 		}()
 		return
 	}
+	verifEvent("pre:startBegin", m.Name)
 	m.status = StatusStarting
 
 	// reset stop management
@@ -212,6 +213,7 @@ func (m *Module) start(reports chan *report) {
 	}
 	m.Ctx, m.cancelCtx = context.WithCancel(context.Background())
 	m.stopFlag.UnSet()
+	verifEvent("post", m.Name)
 
 	m.Unlock()
 
@@ -235,9 +237,11 @@ func (m *Module) start(reports chan *report) {
 			)
 		} else {
 			m.Lock()
+			verifEvent("pre:online", m.Name)
 			m.status = StatusOnline
 			// init start management
 			close(m.startComplete)
+			verifEvent("post", m.Name)
 			m.Unlock()
 			m.notifyOfChange()
 		}
@@ -251,9 +255,12 @@ func (m *Module) start(reports chan *report) {
 
 func (m *Module) checkIfStopComplete() {
 	// Fast path: there is nothing to complete unless the module is stopping.
+	verifEvent("pre:cFast", m.Name)
 	if !m.stopFlag.IsSet() {
+		verifEvent("post:fail", m.Name)
 		return
 	}
+	verifEvent("post", m.Name)
 
 	// Evaluate and signal completion while holding the module lock, which stop()
 	// and start() hold while they reset the stop state. Without it, a check that
@@ -261,17 +268,28 @@ func (m *Module) checkIfStopComplete() {
 	// stop cycle and close its stopComplete while work of that cycle is running.
 	m.Lock()
 	defer m.Unlock()
+	verifEvent("ev:cLock", m.Name)
 
+	verifEvent("pre:cFlag", m.Name)
 	if m.stopFlag.IsSet() &&
+		verifTrue("mid:cCtrl", m.Name) &&
 		m.ctrlFuncRunning.IsNotSet() &&
+		verifTrue("mid:cW", m.Name) &&
 		atomic.LoadInt32(m.workerCnt) == 0 &&
+		verifTrue("mid:cT", m.Name) &&
 		atomic.LoadInt32(m.taskCnt) == 0 &&
+		verifTrue("mid:cM", m.Name) &&
 		atomic.LoadInt32(m.microTaskCnt) == 0 {
 
+		verifEvent("mid:cCas", m.Name)
 		if m.stopCompleted.SetToIf(false, true) {
+			verifEvent("mid:cClose", m.Name)
 			close(m.stopComplete)
+			verifEvent("post", m.Name)
 		}
 	}
+	verifEvent("post:fail", m.Name)
+	verifEvent("ev:cUnlock", m.Name)
 }
 
 func (m *Module) stop(reports chan *report) {
@@ -290,12 +308,14 @@ func (m *Module) stop(reports chan *report) {
 	}
 
 	// Reset start/stop signal channels.
+	verifEvent("pre:stopBegin", m.Name)
 	m.startComplete = make(chan struct{})
 	m.stopComplete = make(chan struct{})
 	m.stopCompleted.SetTo(false)
 
 	// Set status.
 	m.status = StatusStopping
+	verifEvent("post", m.Name)
 
 	go m.stopAllTasks(reports)
 }
@@ -303,13 +323,19 @@ func (m *Module) stop(reports chan *report) {
 func (m *Module) stopAllTasks(reports chan *report) {
 	// Manually set the control function flag in order to stop completion by race
 	// condition before stop function has even started.
+	verifEvent("pre:sCtrl", m.Name)
 	m.ctrlFuncRunning.Set()
+	verifEvent("post", m.Name)
 
 	// Set stop flag for everyone checking this flag before we activate any stop trigger.
+	verifEvent("pre:sFlag", m.Name)
 	m.stopFlag.Set()
+	verifEvent("post", m.Name)
 
 	// Cancel the context to notify all workers and tasks.
+	verifEvent("pre:sCancel", m.Name)
 	m.cancelCtx()
+	verifEvent("post", m.Name)
 
 	// Start stop function.
 	stopFnError := m.startCtrlFn("stop module", m.stopFn)
@@ -319,8 +345,10 @@ func (m *Module) stopAllTasks(reports chan *report) {
 	select {
 	case <-m.stopComplete:
 		// Complete! The stop function has finished, fetch its result.
+		verifEvent("ev:sWake", m.Name)
 		err = <-stopFnError
 	case <-time.After(moduleStopTimeout):
+		verifEvent("ev:sTimeout", m.Name)
 		log.Warningf(
 			"%s: timed out while waiting for stopfn/workers/tasks to finish: stopFn=%v workers=%d tasks=%d microtasks=%d, continuing shutdown...",
 			m.Name,
@@ -346,7 +374,9 @@ func (m *Module) stopAllTasks(reports chan *report) {
 
 	// Always set to offline in order to let other modules shutdown in order.
 	m.Lock()
+	verifEvent("pre:sOffline", m.Name)
 	m.status = StatusOffline
+	verifEvent("post", m.Name)
 	m.Unlock()
 	m.notifyOfChange()
 
